@@ -12,7 +12,8 @@
 //               after the last token everything runs freely until all operations returned and no timer is left,
 //               or the watchdog expires.
 //        A real Interpreter runs a generated chart (one transition per operation, <send>/<cancel> executed by
-//        the interpreter thread when the director injects event op<k>); cancelAllDelayed (A) is called on the
+//        the interpreter thread when the director injects event op<k>; a delayed send is two steps, Is<k>:a up to
+//        the point interp.enqueue.armed -- if the tree has it, answer field hook=1 -- and Isa:d); cancelAllDelayed (A) is called on the
 //        interpreter's delayed queue from a helper thread.  Every controlled USCXML_VERIF_POINT blocks its thread
 //        until the director grants it.
 //        answer: res=ok|stuck|fail:<why> fault=none|uaf:<fn>|dfree:<fn> timing=ok|<why> at=<step index reached>
@@ -22,8 +23,10 @@
 //        (fail:<why> = the run did not realise the schedule: an expected arrival did not come; VD_DELAY_TRACE=1
 //        in the environment prints the monitor and queue events to stderr)
 //   delay_rt <tolerance_us> <spec>
-//        spec: comma separated  S:<uuid>:<sid>:<tgt>:<delay text hex>:<expected ms> | C:<sid> | W:<ms>  executed in
-//        order by the interpreter thread without any forced schedule (W = the director waits).  answer as above.
+//        spec: comma separated  S:<uuid>:<sid>:<tgt>:<delay text hex>:<expected ms> | C:<sid> | W:<ms> | Z:<ms>  executed in
+//        order by the interpreter thread without any forced schedule (W = the director waits; Z = from now on the
+//        delayed queue keeps its caller for <ms> after arming a timer, i.e. InterpreterImpl::enqueue stays between
+//        arming and returning for that long).  answer as above.
 //
 // libevent is a system library (not instrumented).  To observe use-after-free / double free of timer objects
 // exactly, event_new / event_free / event_del are interposed (pass-through unless a replay is active): the set
@@ -112,7 +115,8 @@ static void report_fault_and_exit(const std::string& what, void* obj) {
 }
 
 static bool controlled(const std::string& role, const std::string& p) {
-	if (role == "I") return p == "interp.cancelDelayed.before" || p == "delay.cancel.before" || p == "delay.cancel.locked";
+	if (role == "I") return p == "interp.cancelDelayed.before" || p == "delay.cancel.before" || p == "delay.cancel.locked" ||
+		                        p == "interp.enqueue.armed";
 	if (role == "T") return p == "delay.callback.enter" || p == "delay.callback.unlocked" ||
 		                        p == "interp.eventReady.locked" || p == "delay.callback.delivered";
 	return false;
@@ -145,6 +149,9 @@ struct DQueue : public BasicDelayedEventQueue {
 	// callback runs from its cached clock (the moment the loop woke up for that callback), so such a timer would
 	// be due early by the time the harness held the callback.  In forced runs the cache is refreshed before a send.
 	bool refreshCache = false;
+	// real-time runs: keep the caller inside enqueueDelayed for this long after the timer was armed (the window in
+	// which InterpreterImpl::enqueue has armed the timer but not yet returned), so that a short timer fires in it
+	int sleepAfterArmMs = 0;
 	DQueue(DelayedEventQueueCallbacks* cb) : BasicDelayedEventQueue(cb) {}
 	virtual void enqueueDelayed(const Event& event, size_t delayMs, const std::string& eventUUID) {
 		{
@@ -155,6 +162,7 @@ struct DQueue : public BasicDelayedEventQueue {
 		if (recordOnly) return;
 		if (refreshCache) event_base_update_cache_time(_eventLoop);
 		BasicDelayedEventQueue::enqueueDelayed(event, delayMs, eventUUID);
+		if (sleepAfterArmMs > 0) std::this_thread::sleep_for(std::chrono::milliseconds(sleepAfterArmMs));
 	}
 	// non-blocking look at _callbackData (the director must not wait for a mutex a dead-locked thread holds)
 	int hasEntry(const std::string& uuid) {
@@ -344,7 +352,7 @@ static std::string run_replay(long long tickms, const std::string& progs, const 
 			if (rt) { o.text = unhex(f[4]); o.delay = atoll(f[5].c_str()); }
 			else { o.delay = atoll(f[4].c_str()); if (o.delay) o.text = std::to_string(o.delay * tickms) + "ms"; }
 		} else if (o.kind == 'C') o.sid = atoi(f[1].c_str());
-		else if (o.kind == 'W') o.delay = atoll(f[1].c_str());
+		else if (o.kind == 'W' || o.kind == 'Z') o.delay = atoll(f[1].c_str());
 		S->ops.push_back(o);
 	}
 	c.t0 = clk::now();
@@ -368,6 +376,8 @@ static std::string run_replay(long long tickms, const std::string& progs, const 
 	long long tickno = 0;
 	size_t nextop = 0;
 	bool pendI = false, pendT = false;
+	int hook = -1;              // 1: interp.enqueue.armed was reached, 0: a delayed send returned without it
+	bool nohook_send = false;
 	std::map<int, bool> started;
 	auto inject = [&](int k) {
 		S->interp.receive(Event("op" + std::to_string(k), Event::EXTERNAL));
@@ -393,6 +403,10 @@ static std::string run_replay(long long tickms, const std::string& progs, const 
 		// free running: operations in order, each waited for
 		for (size_t k = 0; k < S->ops.size(); k++) {
 			if (S->ops[k].kind == 'W') { std::this_thread::sleep_for(std::chrono::milliseconds(S->ops[k].delay)); continue; }
+			if (S->ops[k].kind == 'Z') {
+				// (the sleep stretches a concurrently running callback as a forced schedule does: see refreshCache)
+				S->dq->sleepAfterArmMs = (int)S->ops[k].delay; S->dq->refreshCache = true; continue;
+			}
 			if (S->ops[k].kind == 'A') { start_cancel_all(k); }
 			else inject(k);
 			std::unique_lock<std::mutex> lk(c.m);
@@ -424,7 +438,7 @@ static std::string run_replay(long long tickms, const std::string& progs, const 
 		std::string why;
 		if (head[0] == 'I') {
 			check_early();
-			if ((head[1] == 's' || head[1] == 'c' || head[1] == 'a') && head.substr(0, 3) != "Ial") {
+			if ((head[1] == 's' || head[1] == 'c' || head[1] == 'a') && head.substr(0, 3) != "Ial" && head.substr(0, 3) != "Isa") {
 				int k = atoi(head.c_str() + 2);
 				nextop = k + 1;
 				if (!started[k]) {
@@ -447,6 +461,18 @@ static std::string run_replay(long long tickms, const std::string& progs, const 
 					int w = wait_arrival_or_done(lk, "I:delay.cancel.before", k, ARR);
 					ok = w != 0; why = "no-arrival-delay.cancel.before"; if (w == 2) dev = (int)i;
 				}
+				else if (post == "a") {
+					// a delayed send: the thread parks at interp.enqueue.armed (timer armed, enqueue not yet returned) --
+					// if the tree has that point; otherwise the send simply returns and cannot be parked
+					int w = wait_arrival_or_done(lk, "I:interp.enqueue.armed", k, ARR);
+					ok = w != 0; why = "send-neither-armed-nor-done";
+					if (w == 1) hook = 1;
+					if (w == 2) {
+						if (hook != 1) hook = 0;
+						nohook_send = true;
+						if (i + 1 < steps.size() && steps[i + 1].substr(0, 3) != "Isa") timing = "no-armed-hook";
+					}
+				}
 				else if (post == "l") {
 					// cancelAllDelayed has no point after taking _mutex: wait until the helper holds it (or is done)
 					lk.unlock();
@@ -466,6 +492,8 @@ static std::string run_replay(long long tickms, const std::string& progs, const 
 			} else {
 				int k = (int)nextop - 1;
 				bool isall = head.substr(0, 3) == "Ial";
+				bool isarmed = head.substr(0, 3) == "Isa";
+				if (isarmed && nohook_send) { isall = true; if (post != "b") nohook_send = false; }   // nothing is parked: only wait
 				if (!pend && !isall) grant("I");
 				if (post == "l") { ok = wait_arrival(lk, "I:delay.cancel.locked", ARR); why = "no-arrival-delay.cancel.locked"; }
 				else if (post == "q") {
@@ -525,7 +553,7 @@ static std::string run_replay(long long tickms, const std::string& progs, const 
 	if (res == "ok") {
 		auto deadline = clk::now() + std::chrono::milliseconds(watchdog_ms);
 		for (size_t k = nextop; k < S->ops.size() && res == "ok"; k++) {
-			if (S->ops[k].kind == 'W') continue;
+			if (S->ops[k].kind == 'W' || S->ops[k].kind == 'Z') continue;
 			if (S->ops[k].kind == 'A') start_cancel_all(k); else inject(k);
 			std::unique_lock<std::mutex> lk(c.m);
 			if (!c.cv.wait_until(lk, deadline, [&]() { return c.opdone[k]; })) res = "stuck";
@@ -536,7 +564,7 @@ static std::string run_replay(long long tickms, const std::string& progs, const 
 			{
 				std::unique_lock<std::mutex> lk(c.m);
 				for (size_t k = 0; k < nextop && k < S->ops.size(); k++)
-					if (S->ops[k].kind != 'W' && !c.opdone[k]) alldone = false;
+					if (S->ops[k].kind != 'W' && S->ops[k].kind != 'Z' && !c.opdone[k]) alldone = false;
 			}
 			int n = S->dq->entries();
 			if (alldone && n == 0) break;
@@ -550,7 +578,8 @@ static std::string run_replay(long long tickms, const std::string& progs, const 
 		std::unique_lock<std::mutex> lk(c.m);
 		c.tracking = false;
 		out = "res=" + res + " fault=" + c.fault + " timing=" + timing + " at=" + std::to_string(c.step_at) +
-		      " dev=" + (dev < 0 ? std::string("-") : std::to_string(dev)) + " obs=" + join_obs();
+		      " dev=" + (dev < 0 ? std::string("-") : std::to_string(dev)) +
+		      " hook=" + (hook < 0 ? std::string("-") : std::to_string(hook)) + " obs=" + join_obs();
 	}
 	(void)tol_us;
 	std::cout << "@@" << out << std::endl;
